@@ -268,3 +268,9 @@ package majority
 //@   property C01 C09 C11 C20
 //@   nopanic
 //@   ensures [name] result == "majorityHeuristic"
+
+// the parameter schema listed for this method is that of its parameter struct
+//@ func (*Majority).MethodParameters
+//@   property C20
+//@   nopanic
+//@   ensures [schema_of_the_methods_parameters] typeis(result, MajorityHeuristicParams)
